@@ -387,11 +387,28 @@ def lemmas():
     return out
 
 
+# ------------------------------------------------------------------------------------------------ back end A: result_t
+H_R = 'specs/C13/result.h'
+TYPES_R = [(r'::RealScalar$', 'double'),
+           (r'^nano::tensor1d_cmap_t$|tensor_t<nano::tensor_carray_storage_t, double, 1', 'struct nv_t1c'),
+           (r'tensor_cmap_t<double, 1', 'struct nv_prow'), (r'CwiseBinaryOp<.*scalar_difference_op', 'struct nv_prow')]
+RESULT_A = dict(self_struct='struct nv_result', types=TYPES_R,
+                calls=[(r'^max\|double \(\)', '(NV_DBL_MAX)'), (r'^operator-\|', 'nv_row_minus({0}, {1})')],
+                members=[(r'^trials\|.*result_t', '({self}->trials)'), (r'^value\|.*result_t', 'nv_result_value({self}, {0})'),
+                         (r'^tensor\|.*(tensor2d_t|tensor_vector_storage_t, double, 2)', 'nv_params_row(self, {0})'), (r'^lpNorm\|', 'nv_lpnorm2({*self})')])
+
+
+def result_targets():
+    opt = Fn('result_optimum_trial', TU_R, 'optimum_trial', flt='result_t::optimum_trial', **RESULT_A)
+    clo = Fn('result_closest_trial', TU_R, 'closest_trial', flt='result_t::closest_trial', **RESULT_A)
+    return [Target('optimum_trial', [opt], H_R), Target('closest_trial', [clo], H_R)]
+
+
 def build(tier):
     vcs, fns = result_vcs()
     vcs += lemmas()
     return {
-        'targets': [], 'vcs': vcs, 'functions': fns,
+        'targets': result_targets(), 'vcs': vcs, 'functions': fns,
         'decided': [],
         'not_decided': [],
         'assumptions': [],
